@@ -302,6 +302,7 @@ def conjuncts(prog, b, depth=0):
         raise Unsupported("predicate must take two snapshots")
     fs = []
     n_assign = 0
+    equal_edges = []
     # (1) every switch is `if !conjunct { false }`
     for bi, blk in enumerate(b.blocks):
         t = blk["t"]
@@ -310,19 +311,40 @@ def conjuncts(prog, b, depth=0):
         if t["discr_ty"] != "bool":
             raise Unsupported("non-bool branch in predicate")
         zero = [x for v, x in t["targets"] if v == "0"]
-        if not zero or not _false_block(b, zero[0]):
-            raise Unsupported("a failed comparison does not yield false (not a conjunction)")
+        if not zero:
+            raise Unsupported("bool branch without a false edge")
+        # the condition: follow copies of single-definition locals and `!` down to the comparison / helper call
         l = op_local(t["discr"])
-        ds = [d for d in b.defs().get(l, []) if d[0] in ("stmt", "call")]
-        if len(ds) != 1:
-            raise Unsupported("branch condition with several definitions")
-        d = ds[0]
-        if d[0] == "stmt" and d[4][0] == "bin" and d[4][1] == "Eq":
+        neg = False
+        d = None
+        for _ in range(8):
+            ds = [d_ for d_ in b.defs().get(l, []) if d_[0] in ("stmt", "call")]
+            if len(ds) != 1:
+                raise Unsupported("branch condition with several definitions")
+            d = ds[0]
+            if d[0] == "stmt" and d[4][0] == "use" and d[4][1][0] in ("c", "m") and len(d[4][1][1]) == 1:
+                l = d[4][1][1][0]
+                continue
+            if d[0] == "stmt" and d[4][0] == "un" and d[4][1] == "Not" and d[4][2][0] in ("c", "m") and len(d[4][2][1]) == 1:
+                l = d[4][2][1][0]
+                neg = not neg
+                continue
+            break
+        if d[0] == "stmt" and d[4][0] == "bin" and d[4][1] in ("Eq", "Ne"):
+            if d[4][1] == "Ne":
+                neg = not neg
             fs.append(_eq_key(b, d[4]))
         elif d[0] == "call":
+            if re.search(r"PartialEq(<.*>)?(>)?::ne$", callee(d[2])):
+                neg = not neg
             fs.extend(_helper_key(prog, b, d[2], depth))
         else:
             raise Unsupported("branch condition is not an equality or a helper predicate")
+        # the edge taken when the compared values DIFFER must yield false
+        differ_edge = t["otherwise"] if neg else zero[0]
+        if not _false_block(b, differ_edge):
+            raise Unsupported("a failed comparison does not yield false (not a conjunction)")
+        equal_edges.append((bi, zero[0] if neg else t["otherwise"]))
     # (2) the result: false, an equality, or a helper predicate's result
     for bi, blk in enumerate(b.blocks):
         for s in blk["s"]:
@@ -331,6 +353,31 @@ def conjuncts(prog, b, depth=0):
                 rv = s[2]
                 if rv[0] == "use" and rv[1][0] == "k" and rv[1][1].get("v") is False:
                     continue
+                if rv[0] == "use" and rv[1][0] == "k" and rv[1][1].get("v") is True:
+                    # early-return style (`if a != b { return false } .. true`): `true` only after EVERY comparison came out equal
+                    if not equal_edges or any(bi in b.reachable_from(0, cut_edges=[e_]) for e_ in equal_edges):
+                        raise Unsupported("`true` is returned on a path that skips a comparison (not a conjunction)")
+                    continue
+                if rv[0] == "use" and rv[1][0] in ("c", "m") and len(rv[1][1]) == 1:
+                    # the last conjunct held in a local
+                    l = rv[1][1][0]
+                    d = None
+                    for _ in range(8):
+                        ds = [d_ for d_ in b.defs().get(l, []) if d_[0] in ("stmt", "call")]
+                        if len(ds) != 1:
+                            raise Unsupported("result copied from a local with several definitions")
+                        d = ds[0]
+                        if d[0] == "stmt" and d[4][0] == "use" and d[4][1][0] in ("c", "m") and len(d[4][1][1]) == 1:
+                            l = d[4][1][1][0]
+                            continue
+                        break
+                    if d[0] == "stmt" and d[4][0] == "bin" and d[4][1] == "Eq":
+                        fs.append(_eq_key(b, d[4]))
+                        continue
+                    if d[0] == "call":
+                        fs.extend(_helper_key(prog, b, d[2], depth))
+                        continue
+                    raise Unsupported("result copied from a local that is not an equality")
                 if rv[0] == "bin" and rv[1] == "Eq":
                     fs.append(_eq_key(b, rv))
                     continue
@@ -659,42 +706,24 @@ def run(ctx, rep):
         if len(du) == 1 and unch:
             rep.check("C09.c", "keep-before-unchanged", not (unch & set(r_keep)), where=where(A, mk[0]), what="a protected snapshot (must_keep) is never given the 'unchanged' verdict")
             rep.check("C09.c", "delete-before-unchanged", not (unch & set(r_del)), where=where(A, md[0]), what="the 'unchanged' verdict is not reached once must_delete holds")
-            # precedence of the option over the keep rules: with delete_unchanged on and the next snapshot having the same tree
-            # (the is_some_and(..tree..) test true) the 'unchanged' verdict is reached and matches() is not
-            ff = force_flag("delete_unchanged", True)
-
-            def on(body, bb):
-                f = ff(body, bb)
-                if f is not None:
-                    return f
-                tt = body.term(bb)
-                if tt["k"] == "switch" and tt["discr_ty"] == "bool":
-                    e = flow.expr_of(body, tt["discr"], bb)
-                    neg = False
-                    while e[0] == "un" and e[1] == "Not":
-                        neg = not neg
-                        e = e[2]
-                    if e[0] == "call" and re.search(r"Option::<T>::is_some_and$", e[1]):
-                        zero = [x for v, x in tt["targets"] if v == "0"]
-                        if zero:
-                            return zero[0] if neg else tt["otherwise"]
-                return None
-
-            def ev_on(body, e):
-                if isinstance(e, tuple) and e and e[0] == "call" and re.search(r"Option::<T>::is_some_and$", e[1]):
-                    return True
-                return flag_eval("delete_unchanged", True)(body, e)
-            mkf, mdf = force_result(mk[0], False), force_result(md[0], False)
-
-            def on_all(body, bb):
-                for f_ in (mkf, mdf, on):
-                    r_ = f_(body, bb)
-                    if r_ is not None:
-                        return r_
-                return None
-            r_on = pathsens.reachable_under(A, on_all, eval_expr=ev_on)
-            rep.check("C09.c", "unchanged-before-matches", mt[0] not in r_on and bool(unch & set(r_on)), where=where(A, du[0]),
-                      what="with delete_unchanged on and an identical next snapshot the verdict is 'unchanged' and the keep rules are not consulted")
+            # precedence of the option over the keep rules, independent of how the "same tree as the next snapshot" test is
+            # spelled (closure, helper fn, local): within one iteration the 'unchanged' verdict and the call of matches() exclude
+            # each other (neither is reachable from the other without going round the loop), the verdict is unreachable with
+            # the option off, and matches() is reachable with it off
+            deps = {}
+            for u_ in unch:
+                for (sw_, succ_) in C.transitive_control_deps(A, u_):
+                    deps.setdefault(sw_, set()).add(succ_)
+            chain = {sw_: next(iter(ss_)) for sw_, ss_ in deps.items() if len(ss_) == 1}
+            # every decision that leads to the 'unchanged' verdict is taken that way (path-sensitively: a verdict parked in an
+            # Option and matched later is followed): the keep rules are then out of reach
+            r_chain = pathsens.reachable_under(A, lambda b_, bb_: chain.get(bb_))
+            excl = mt[0] not in r_chain and bool(unch & set(r_chain))
+            r_off = pathsens.reachable_under(A, force_flag("delete_unchanged", False))
+            r_on = pathsens.reachable_under(A, force_flag("delete_unchanged", True))
+            okprec = excl and not (unch & set(r_off)) and mt[0] in r_off and bool(unch & set(r_on))
+            rep.check("C09.c", "unchanged-before-matches", okprec, where=where(A, du[0]),
+                      what="the 'unchanged' verdict (only with delete_unchanged on) and the keep rules exclude each other within one iteration: a snapshot removed as unchanged is never kept by a keep rule")
     # `last` follows every processed snapshot (the period comparison is always against the immediately newer snapshot)
     la = [bi for bi, blk in enumerate(A.blocks) for s_ in blk["s"] if s_[0] == "=" and s_[2][0] == "agg" and s_[2][1][0] == "adt" and s_[2][1][2] == "Some" and "SnapshotFile" in A.locals[s_[1][0]]]
     if len(mt) == 1:
@@ -708,9 +737,56 @@ def run(ctx, rep):
             okl = not any(C.reachable_between(A, [h0], l_, cut_blocks=la) for l_ in latches if l_ not in la)
         rep.check("C09.e", "last-follows-every-snapshot", okl, where=A.loc(), what="`last` is set to every processed snapshot (kept or not): periods are compared with the immediately newer snapshot" if okl else
                   "`last` is not updated on every iteration: the period comparison skips snapshots and counts a period twice")
-    # sort: newest first = cmp(..).reverse()
-    cl = [c for c in prog.closures_of(A) if any(re.search(r"Ordering::reverse$", callee(t)) for _, t in c.calls())]
-    has_cmp = any(any(re.search(r"SnapshotFile as std::cmp::Ord>::cmp$", callee(t)) for _, t in c.calls()) for c in cl)
+    # sort: newest first. Accepted spellings: sort*_by(|a, b| a.cmp(b).reverse()), sort*_by(|a, b| b.cmp(a)), or an ascending
+    # sort followed by reverse()/rev(); decided from which closure parameter feeds which side of the comparison and the
+    # parity of Ordering::reverse
+    desc = False
+    has_cmp = False
+    for bb_, t_ in A.calls():
+        if "callee" not in t_ or not re.search(r"::(sort_unstable_by|sort_by)$", callee(t_)):
+            continue
+        cpath = None
+        for a_ in t_["args"][1:]:
+            for d_ in A.defs().get(op_local(a_), []):
+                if d_[0] == "stmt" and d_[4][0] == "agg" and d_[4][1][0] == "closure":
+                    cpath = d_[4][1][1]
+        c_ = prog.bodies.get(cpath) if cpath else None
+        if c_ is None:
+            continue
+        for cb_, ct_ in c_.calls():
+            if "callee" in ct_ and re.search(r"as std::cmp::Ord>::cmp$|as std::cmp::PartialOrd>::partial_cmp$", callee(ct_)) and len(ct_["args"]) == 2:
+                ra = flow.backward_slice(c_, op_place(ct_["args"][0]))["args"] if op_place(ct_["args"][0]) else set()
+                rb = flow.backward_slice(c_, op_place(ct_["args"][1]))["args"] if op_place(ct_["args"][1]) else set()
+                nrev = sum(1 for _, x_ in c_.calls() if "callee" in x_ and re.search(r"Ordering::reverse$", callee(x_)))
+                if 2 in ra and 3 in rb and 3 not in ra and 2 not in rb:
+                    has_cmp = True
+                    desc = (nrev % 2 == 1)
+                elif 3 in ra and 2 in rb and 2 not in ra and 3 not in rb:
+                    has_cmp = True
+                    desc = (nrev % 2 == 0)
+    if has_cmp and not desc:
+        # ascending comparator followed by an explicit reversal
+        desc = any("callee" in t_ and (re.search(r"\]>::reverse$|Iterator::rev$", callee(t_)) or re.search(r"\]>::reverse$|Iterator::rev$", callee_decl(t_))) for _, t_ in A.calls())
+    if not has_cmp:
+        asc = any("callee" in t_ and re.search(r"\]>::(sort|sort_unstable)$|::(sort|sort_unstable)$", callee(t_)) for _, t_ in A.calls())
+        rev = any("callee" in t_ and (re.search(r"\]>::reverse$|Iterator::rev$", callee(t_)) or re.search(r"\]>::reverse$|Iterator::rev$", callee_decl(t_))) for _, t_ in A.calls())
+        has_cmp, desc = asc, asc and rev
+    cl = [1] if desc else []
+    # every snapshot handed in is decided: between the parameter and the loop the list is only sorted - nothing removes or
+    # skips entries (an omitted snapshot is neither kept nor reported, whatever the keep rules say)
+    DROP = re.compile(r"Vec::<T, A>::(dedup|dedup_by|dedup_by_key|retain|retain_mut|truncate|drain|pop|remove|swap_remove|split_off|clear)$"
+                      r"|Iterator::(filter|filter_map|skip|skip_while|take|take_while|step_by|map_while)$")
+    dropped = []
+    for bb_, t_ in A.calls():
+        if "callee" not in t_:
+            continue
+        cc = callee(t_) + " " + callee_decl(t_)
+        if DROP.search(callee(t_)) or DROP.search(callee_decl(t_)):
+            pl_ = op_place(t_["args"][0]) if t_["args"] else None
+            if pl_ and 2 in flow.backward_slice(A, pl_)["args"]:
+                dropped.append(callee_decl(t_).rsplit("::", 1)[-1] + " at " + where(A, bb_))
+    rep.check("C09.c", "all-snapshots-considered", not dropped, where=A.loc(), what="every snapshot of the group reaches the decision loop (the list is only sorted)" if not dropped else
+              f"snapshots are removed from the list before they are decided ({dropped}): they are neither kept nor listed for removal")
     rep.check("C09.c", "newest-first", bool(cl) and has_cmp, where=A.loc(), what="snapshots are processed newest first (sort by cmp(..).reverse())")
     # must_keep / must_delete are the complementary halves of DeleteOption::After
     for name, op_expected in (("must_keep", ("Ge", "Le")), ("must_delete", ("Lt", "Gt"))):
